@@ -1,11 +1,216 @@
 import AslModel.Date
-/-! # C19 — Date ↔ UTC calendar fields (work in progress: theorems are added below) -/
-namespace C19
-open AslModel.Date Gen.Date
+import AslProofs.Date
+/-!
+# C19 — Date converts between epoch seconds and UTC calendar fields as a bijection
 
-/-- the cumulative month table of the source is the one of the Gregorian calendar -/
-theorem month_table_is_gregorian :
-    monthDays = [[0, 0, 31, 59, 90, 120, 151, 181, 212, 243, 273, 304, 334, 365],
-                 [0, 0, 31, 60, 91, 121, 152, 182, 213, 244, 274, 305, 335, 366]] := by decide
+Property theorems only (helper lemmas: `AslProofs/Date.lean`).  `yearFromDay`, `daysInYear`,
+`timeFromYearAsDays`, `monthDays`, `wdNames`, `mnNames`, `parseMonths` are **regenerated from
+`src/Date.cpp` on every run** (`Gen/DateGen.lean`); the other model functions (`calcF`, `construct`,
+`toUTCString`, `parse`, `parseFmt`) are the ones the model driver runs against the real library.
+The specification below (namespace `Cal`) is the proleptic Gregorian calendar written from its
+definition, not from the code: leap rule, month lengths, "days before a year" as the unique function
+that is 0 at 1970 and grows by the length of each year, and independently Hinnant's `days_from_civil`.
+Time values are integer milliseconds since 1970-01-01T00:00:00Z.
+-/
+namespace C19
+open AslModel.Date Gen.Date AslProofs.Date
+
+/-! ## specification -/
+namespace Cal
+
+def isLeap (y : Int) : Bool := y % 4 == 0 && (y % 100 != 0 || y % 400 == 0)
+
+def yearLen (y : Int) : Int := if isLeap y then 366 else 365
+
+def monthLen (y : Int) (m : Nat) : Int :=
+  match m with
+  | 2 => if isLeap y then 29 else 28
+  | 4 | 6 | 9 | 11 => 30
+  | _ => 31
+
+/-- days of year `y` before the first day of month `m` (1-based): the sum of the preceding month lengths -/
+def daysBeforeMonth (y : Int) (m : Nat) : Int := ((List.range (m - 1)).map fun i => monthLen y (i + 1)).sum
+
+/-- `f y` = number of days from 1970-01-01 to `y`-01-01: zero at 1970, and each year adds its length -/
+def IsDaysBeforeYear (f : Int → Int) : Prop := f 1970 = 0 ∧ ∀ y, f (y + 1) = f y + yearLen y
+
+/-- a calendar date with a time of day -/
+structure Valid (y m d h mi s : Int) : Prop where
+  year : 0 ≤ y
+  month : 1 ≤ m ∧ m ≤ 12
+  day : 1 ≤ d ∧ d ≤ monthLen y m.toNat
+  hour : 0 ≤ h ∧ h < 24
+  minute : 0 ≤ mi ∧ mi < 60
+  second : 0 ≤ s ∧ s < 60
+
+/-- Howard Hinnant's `days_from_civil` (an independent closed form of the day number) -/
+def daysFromCivil (y m d : Int) : Int :=
+  let y' := if m ≤ 2 then y - 1 else y
+  let era := y' / 400
+  let yoe := y' - era * 400
+  let doy := (153 * (if m > 2 then m - 3 else m + 9) + 2) / 5 + d - 1
+  let doe := yoe * 365 + yoe / 4 - yoe / 100 + doy
+  era * 146097 + doe - 719468
+
+end Cal
+
+/-- first millisecond of year 0 (0000-01-01T00:00:00Z); years 1..9999 are `[-62135596800000, 253402300799999]` -/
+def t0 : Int := -62167219200000
+
+/-! ## G obligations: what the source says is the Gregorian calendar -/
+
+/-- the leap-year macro `daysInYear(y) == 366` is the Gregorian rule, for every integer year -/
+theorem leap_macro_is_gregorian (y : Int) : AslModel.Date.isLeap y = Cal.isLeap y := by
+  have e4 : Int.tmod y 4 = 0 ↔ y % 4 = 0 := by rw [tmod_lit]; split <;> omega
+  have e100 : Int.tmod y 100 = 0 ↔ y % 100 = 0 := by rw [tmod_lit]; split <;> omega
+  have e400 : Int.tmod y 400 = 0 ↔ y % 400 = 0 := by rw [tmod_lit]; split <;> omega
+  unfold AslModel.Date.isLeap daysInYear Cal.isLeap
+  simp only [ne_eq, e4, e100, e400]
+  by_cases h4 : y % 4 = 0 <;> by_cases h100 : y % 100 = 0 <;> by_cases h400 : y % 400 = 0 <;> simp [h4, h100, h400]
+
+/-- the macro `timeFromYearAsDays` is the day count of 1 January: 0 at 1970, growing by each year's length (all integer years) -/
+theorem daysBeforeYear_step : Cal.IsDaysBeforeYear timeFromYearAsDays := by
+  refine ⟨by decide, fun y => ?_⟩
+  unfold timeFromYearAsDays Cal.yearLen Cal.isLeap
+  by_cases h4 : y % 4 = 0 <;> by_cases h100 : y % 100 = 0 <;> by_cases h400 : y % 400 = 0 <;> simp [h4, h100, h400] <;> omega
+
+/-- ... and that description determines the function -/
+theorem daysBeforeYear_unique (f g : Int → Int) (hf : Cal.IsDaysBeforeYear f) (hg : Cal.IsDaysBeforeYear g) (y : Int) :
+    f y = g y := by
+  have key : ∀ k : Nat, f (1970 + k) = g (1970 + k) ∧ f (1970 - k) = g (1970 - k) := by
+    intro k
+    induction k with
+    | zero => simp [hf.1, hg.1]
+    | succ k ih =>
+      constructor
+      · have a := hf.2 (1970 + k); have b := hg.2 (1970 + k)
+        have e : (1970 : Int) + ((k + 1 : Nat) : Int) = 1970 + k + 1 := by omega
+        rw [e, a, b, ih.1]
+      · have a := hf.2 (1970 - (k + 1 : Nat)); have b := hg.2 (1970 - (k + 1 : Nat))
+        have e : (1970 : Int) - ((k + 1 : Nat) : Int) + 1 = 1970 - k := by omega
+        rw [e] at a b
+        have := ih.2
+        omega
+  by_cases h : 1970 ≤ y
+  · have := (key (y - 1970).toNat).1
+    have e : (1970 : Int) + ((y - 1970).toNat : Int) = y := by omega
+    rwa [e] at this
+  · have := (key (1970 - y).toNat).2
+    have e : (1970 : Int) - ((1970 - y).toNat : Int) = y := by omega
+    rwa [e] at this
+
+/-- `month_days[leap][m]` is the sum of the lengths of the months before `m` -/
+theorem month_table_is_gregorian (y : Int) (m : Nat) (h1 : 1 ≤ m) (h13 : m ≤ 13) :
+    mdays (AslModel.Date.isLeap y) m = Cal.daysBeforeMonth y m := by
+  rw [leap_macro_is_gregorian]
+  have key : ∀ (l : Bool) (m : Fin 14), 1 ≤ m.val →
+      mdays l m.val = ((List.range (m.val - 1)).map fun i =>
+        (match i + 1 with
+          | 2 => if l then (29 : Int) else 28
+          | 4 | 6 | 9 | 11 => 30
+          | _ => 31)).sum := by decide +kernel
+  have := key (Cal.isLeap y) ⟨m, by omega⟩ h1
+  simpa [Cal.daysBeforeMonth, Cal.monthLen] using this
+
+/-- successive table entries differ by the month length -/
+theorem month_length (y : Int) (m : Nat) (h1 : 1 ≤ m) (h12 : m ≤ 12) :
+    mdays (AslModel.Date.isLeap y) (m + 1) - mdays (AslModel.Date.isLeap y) m = Cal.monthLen y m := by
+  rw [leap_macro_is_gregorian]
+  have key : ∀ (l : Bool) (m : Fin 13), 1 ≤ m.val →
+      mdays l (m.val + 1) - mdays l m.val =
+        (match m.val with
+          | 2 => if l then (29 : Int) else 28
+          | 4 | 6 | 9 | 11 => 30
+          | _ => 31) := by decide +kernel
+  have := key (Cal.isLeap y) ⟨m, by omega⟩ h1
+  simpa [Cal.monthLen] using this
+
+/-! ## the year of a day -/
+
+/-- `yearFromTime` inverts "days before the year": every day of every year `y ≥ 0` (no upper bound) maps back to `y`.
+Years 1..9999 of the property are the instance `1 ≤ y ≤ 9999`. -/
+theorem year_of_day (y k : Int) (hy : 0 ≤ y) (hk0 : 0 ≤ k) (hk : k < Cal.yearLen y) :
+    yearFromDay (timeFromYearAsDays y + k) = y := by
+  have hstep := daysBeforeYear_step.2 y
+  have h1 := tfy_eq_start y
+  have h2 := tfy_eq_start (y + 1)
+  have hs0 : 0 ≤ start y := by
+    by_cases e : y = 0
+    · rw [e, start_zero]; exact Int.le_refl _
+    · have := start_strict_mono (y := 0) (z := y) (by omega)
+      rw [start_zero] at this; omega
+  have hb := year_bracket (timeFromYearAsDays y + k) (timeFromYearAsDays y + k + 719528) rfl (by omega)
+  exact bracket_unique hb ⟨by omega, by omega⟩
+
+/-- conversely the returned year always contains the day (every day from 0000-01-01 on) -/
+theorem day_in_its_year (day : Int) (h : -719528 ≤ day) :
+    timeFromYearAsDays (yearFromDay day) ≤ day ∧ day < timeFromYearAsDays (yearFromDay day + 1) := by
+  have hb := year_bracket day (day + 719528) rfl (by omega)
+  have h1 := tfy_eq_start (yearFromDay day)
+  have h2 := tfy_eq_start (yearFromDay day + 1)
+  omega
+
+example : yearFromDay (timeFromYearAsDays 2000 + 365) = 2000 := by decide
+example : yearFromDay (timeFromYearAsDays 1900 + 364) = 1900 ∧ yearFromDay (timeFromYearAsDays 1900 + 365) = 1901 := by decide
+example : Cal.yearLen 2000 = 366 ∧ Cal.yearLen 1900 = 365 ∧ Cal.yearLen 9999 = 365 := by decide
+
+/-! ## splitting into fields and back -/
+
+/-- `splitUTC` yields the calendar fields of the instant: the date whose day number is the day of `t`, the time of
+day, and the weekday (Thursday = 4 at the epoch), for every instant from 0000-01-01 on -/
+theorem calc_is_calendar (t : Int) (ht : t0 ≤ t) :
+    let f := calcF t
+    Cal.Valid f.year f.month f.day f.hours f.minutes f.seconds ∧
+    timeFromYearAsDays f.year + Cal.daysBeforeMonth f.year f.month.toNat + (f.day - 1) = t / 1000 / 86400 ∧
+    f.hours * 3600 + f.minutes * 60 + f.seconds = t / 1000 % 86400 ∧
+    f.weekDay = (t / 1000 / 86400 + 4) % 7 := by
+  intro f
+  have hr : 0 ≤ t / 1000 / 86400 + 719528 := by unfold t0 at ht; omega
+  obtain ⟨hy, hm1, hm2, hd1, hd2, hdn, hh1, hh2, hmi1, hmi2, hs1, hs2, hsum⟩ := calcF_facts t _ rfl hr
+  have hml := month_length (calcF t).year (calcF t).month.toNat (by omega) (by omega)
+  have hmt := month_table_is_gregorian (calcF t).year (calcF t).month.toNat (by omega) (by omega)
+  refine ⟨⟨hy, ⟨hm1, hm2⟩, ⟨hd1, by rw [← hml]; exact hd2⟩, ⟨hh1, hh2⟩, ⟨hmi1, hmi2⟩, ⟨hs1, hs2⟩⟩, ?_, hsum, weekday_spec t _ rfl⟩
+  rw [← hmt]; exact hdn
+
+/-- building a Date from the fields of an instant gives the instant back (to the second) -/
+theorem construct_calc (t : Int) (ht : t0 ≤ t) : constructF (calcF t) = some (t - t % 1000) :=
+  AslProofs.Date.construct_calc t _ rfl (by unfold t0 at ht; omega)
+
+/-- every valid field tuple is the split of the instant constructed from it, whose day number is the calendar's -/
+theorem calc_construct (y m d h mi s : Int) (hv : Cal.Valid y m d h mi s) :
+    ∃ t, construct y m d h mi s = some t ∧
+      t = ((timeFromYearAsDays y + Cal.daysBeforeMonth y m.toNat + (d - 1)) * 86400 + (h * 3600 + mi * 60 + s)) * 1000 ∧
+      calcF t = ⟨y, m, d, h, mi, s, (timeFromYearAsDays y + Cal.daysBeforeMonth y m.toNat + (d - 1) + 4) % 7⟩ := by
+  have hml := month_length y m.toNat (by have := hv.month; omega) (by have := hv.month; omega)
+  have hmt := month_table_is_gregorian y m.toNat (by have := hv.month; omega) (by have := hv.month; omega)
+  obtain ⟨t, hc, hms, hday, hf⟩ := AslProofs.Date.calc_construct y m d h mi s hv.year hv.month
+    ⟨hv.day.1, by rw [hml]; exact hv.day.2⟩ hv.hour hv.minute hv.second
+  refine ⟨t, hc, ?_, by rw [← hmt]; exact hf⟩
+  have hc2 := construct_of_valid y m d h mi s hv.month ⟨by have := hv.day; omega, by
+      have := hv.day.2
+      have : Cal.monthLen y m.toNat ≤ 31 := by unfold Cal.monthLen; split <;> (try split) <;> omega
+      omega⟩ (by have := hv.year; omega) hv.hour hv.minute hv.second
+  rw [hc2] at hc
+  rw [← hmt]
+  have := Option.some.inj hc
+  omega
+
+/-- the two directions together: on instants of whole seconds from year 0 on, `calcF` and `construct` are mutually inverse -/
+theorem fields_bijection (t : Int) (ht : t0 ≤ t) (hsec : t % 1000 = 0) :
+    constructF (calcF t) = some t ∧
+    (∀ y m d h mi s, Cal.Valid y m d h mi s → construct y m d h mi s = some t →
+      (calcF t).year = y ∧ (calcF t).month = m ∧ (calcF t).day = d ∧ (calcF t).hours = h ∧ (calcF t).minutes = mi ∧ (calcF t).seconds = s) := by
+  refine ⟨by rw [construct_calc t ht, hsec]; simp, ?_⟩
+  intro y m d h mi s hv hc
+  obtain ⟨t', hc', _, hf⟩ := calc_construct y m d h mi s hv
+  rw [hc] at hc'
+  have := Option.some.inj hc'
+  subst this
+  rw [hf]; exact ⟨rfl, rfl, rfl, rfl, rfl, rfl⟩
+
+example : Cal.Valid 2000 2 29 23 59 59 := ⟨by decide, by decide, by decide, by decide, by decide, by decide⟩
+example : calcF 951868799000 = ⟨2000, 2, 29, 23, 59, 59, 2⟩ := by decide
+example : construct 2000 2 29 23 59 59 = some 951868799000 := by decide
+example : t0 ≤ -62135596800000 := by decide
 
 end C19
